@@ -66,9 +66,31 @@ def payload(tag: int, n: int) -> bytes:
     return bytes((tag * 37 + i * 5 + (i >> 8)) & 0xff for i in range(n))
 
 
+TEXT_UNIT = '\u20ac\u00e9\U0001f600a\u4e16'.encode('utf-8')     # 3+2+4+1+3
+
+
+def text_slice(off: int, n: int) -> bytes:
+    """n bytes of an endless UTF-8 text, starting at byte offset off: packet
+    boundaries fall inside characters"""
+
+    reps = (off + n) // len(TEXT_UNIT) + 2
+    return (TEXT_UNIT * reps)[off:off + n]
+
+
+class LogTunSession(memwire._LogSession,    # pylint: disable=protected-access
+                    asyncssh.SSHTunTapSession):
+    """Application end of a tun@openssh.com channel"""
+
+
+TUN_MODES = {'tun': 1, 'tap': 2}       # point-to-point / ethernet
+
+
 def setup(role: str, store, sessions, peer_window: int, peer_maxpkt: int,
-          my_window: Optional[int] = None, my_maxpkt: Optional[int] = None):
-    """role = role of asyncssh.  Returns (link, conn, refchan, appchan)"""
+          my_window: Optional[int] = None, my_maxpkt: Optional[int] = None,
+          encoding: Optional[str] = None, chan_kind: str = 'session'):
+    """role = role of asyncssh.  Returns (link, conn, refchan, appchan).
+    chan_kind 'tun' / 'tap': a tun@openssh.com channel (layer 3: every
+    packet carries a 4-byte address family the application does not see)"""
 
     if role == 'server':
         ref = RefPeer('client')
@@ -81,7 +103,21 @@ def setup(role: str, store, sessions, peer_window: int, peer_maxpkt: int,
                 sessions.append(sess)
                 return sess
 
-        opts: Dict[str, Any] = {'server_factory': Server, 'encoding': None}
+            def _tuntap(self):
+                sess = LogTunSession(store, 'app')
+                sessions.append(sess)
+                kw2 = {} if my_window is None else \
+                    {'window': my_window, 'max_pktsize': my_maxpkt}
+                return self.conn.create_tuntap_channel(**kw2), sess
+
+            def tun_requested(self, unit):
+                return self._tuntap()
+
+            def tap_requested(self, unit):
+                return self._tuntap()
+
+        opts: Dict[str, Any] = {'server_factory': Server,
+                                'encoding': encoding}
         if my_window is not None:
             opts['window'] = my_window
             opts['max_pktsize'] = my_maxpkt
@@ -92,6 +128,14 @@ def setup(role: str, store, sessions, peer_window: int, peer_maxpkt: int,
         link.pump()
         conn.auth_password('user', 'pw')
         link.pump()
+        if chan_kind != 'session':
+            rch = conn.open_channel(b'tun@openssh.com', refpeer_u32(
+                TUN_MODES[chan_kind]) + refpeer_u32(0x7fffffff))
+            link.pump()
+            if not rch.confirmed:
+                raise Violation('setup', 'tunnel not confirmed', 'setup')
+            return link, conn, rch, sessions[0].chan
+
         rch = conn.open_channel()
         link.pump()
         if not rch.confirmed:
@@ -109,12 +153,18 @@ def setup(role: str, store, sessions, peer_window: int, peer_maxpkt: int,
     link.pump_until(link.ready.done)
     if not link.ready.done() or link.ready.exception():
         raise Violation('setup', 'client did not authenticate', 'setup')
-    kw: Dict[str, Any] = {'encoding': None}
+    kw: Dict[str, Any] = {'encoding': encoding}
     if my_window is not None:
         kw['window'] = my_window
         kw['max_pktsize'] = my_maxpkt
-    task = link.h.spawn(link.conn.create_session(
-        lambda: LogClientSession(store, 'app'), 'cmd', **kw))
+    if chan_kind != 'session':
+        kw.pop('encoding')
+        opener = link.conn.create_tun if chan_kind == 'tun' else \
+            link.conn.create_tap
+        task = link.h.spawn(opener(lambda: LogTunSession(store, 'app'), **kw))
+    else:
+        task = link.h.spawn(link.conn.create_session(
+            lambda: LogClientSession(store, 'app'), 'cmd', **kw))
     link.pump_until(task.done)
     chan, _ = task.result()
     link.pump()
@@ -247,9 +297,18 @@ def run_receiver(case) -> CaseResult:
     store: Dict[Any, List[Any]] = {}
     sessions: List[Any] = []
     W, P = case['window'], case['maxpkt']
-    link, conn, rch, chan = setup(role, store, sessions, 1 << 21, 32768, W, P)
-    labels = {'role:' + role, 'window:%d' % W, 'maxpkt:%d' % P}
+    kind = case.get('chan', 'session')
+    text = bool(case.get('text')) and kind == 'session'
+    link, conn, rch, chan = setup(role, store, sessions, 1 << 21, 32768, W, P,
+                                  'utf-8' if text else None, kind)
+    labels = {'role:' + role, 'window:%d' % W, 'maxpkt:%d' % P,
+              'chan:' + kind}
     lostlog: List[Any] = []
+    # what the application does not get to see of each packet
+    hidden = 4 if kind == 'tun' else 0
+
+    if text:
+        labels.add('text-channel')
 
     try:
         if rch.send_window != W or rch.send_maxpkt != P:
@@ -265,7 +324,24 @@ def run_receiver(case) -> CaseResult:
         violated = False
 
         def delivered() -> bytes:
+            if text:
+                return ''.join(e[2] for e in events
+                               if e[0] == 'data').encode('utf-8')
             return b''.join(e[2] for e in events if e[0] == 'data')
+
+        def same(got: bytes, want: bytes) -> bool:
+            """On a text channel the bytes of a character still incomplete
+            are legitimately held back"""
+
+            if not text:
+                return got == want
+            if not want.startswith(got) or len(want) - len(got) > 3:
+                return False
+            try:
+                want[len(got):].decode('utf-8')
+            except UnicodeDecodeError as exc:
+                return 'unexpected end' in exc.reason
+            return got == want
 
         for op in case['ops']:
             if op[0] == 'pause':
@@ -308,8 +384,18 @@ def run_receiver(case) -> CaseResult:
                 if n == 0:
                     continue
                 n = min(n, 70000)
-                data = payload(k, n)
+                data = text_slice(len(expected), n) if text else \
+                    payload(k, n)
+                if hidden and n >= 4:
+                    data = refpeer_u32(2) + data[4:]       # AF_INET
                 k += 1
+                if text:
+                    try:
+                        data.decode('utf-8')
+                    except UnicodeDecodeError:
+                        labels.add('text:packet-splits-character')
+                        if n < 4:
+                            labels.add('text:packet-of-partial-character')
                 over_window = n > remaining
                 over_pkt = n > P
                 conn.data(rch, data)
@@ -347,12 +433,15 @@ def run_receiver(case) -> CaseResult:
                                     'and the connection ended' %
                                     (n, remaining),
                                     'conforming-data-rejected')
-                expected += data
+                expected += data[hidden:]
+
+                if hidden and n <= hidden:
+                    labels.add('tun:header-only-packet')
 
                 if paused and n:
                     labels.add('data-while-paused')
 
-                if not paused and delivered() != expected:
+                if not paused and not same(delivered(), expected):
                     raise Violation('data', 'delivered %d bytes, peer sent '
                                     '%d inside the window' %
                                     (len(delivered()), len(expected)),
@@ -368,7 +457,7 @@ def run_receiver(case) -> CaseResult:
         if not violated:
             link.h.call(chan.resume_reading)
             link.pump()
-            if delivered() != expected:
+            if not same(delivered(), expected):
                 raise Violation('data', 'after resume delivered %d bytes, '
                                 'peer sent %d inside the window' %
                                 (len(delivered()), len(expected)),
@@ -445,6 +534,8 @@ def receiver_strategy(tier: str):
             t[3])
     return st.fixed_dictionaries({
         'role': pick(['server', 'client']),
+        'text': pick([False, False, True]),
+        'chan': pick(['session', 'session', 'session', 'tun', 'tap']),
         'window': pick([1, 2, 7, 100, 1000, 4096, 65536]),
         'maxpkt': pick([1, 3, 64, 1024, 32768]),
         'ops': st.one_of(st.lists(op, min_size=1, max_size=12),
@@ -721,7 +812,9 @@ FAMILIES = [
                              'violation-while-paused',
                              'violation-while-reading', 'data-while-paused',
                              'pause', 'partial-resume',
-                             'partial-resume:backlog-left']},
+                             'partial-resume:backlog-left', 'text-channel',
+                             'chan:tun', 'chan:tap',
+                             'text:packet-of-partial-character']},
            case_timeout=120, timeout_is_violation=True),
     Family('streams', run_streams, strategy=streams_strategy,
            budget={'quick': 1200, 'thorough': 16000},
